@@ -146,8 +146,10 @@ THREADFUNC_DECL TaskScheduler::TaskingThreadFunction( void* pArgs )
         }
     }
 
-    AtomicAdd( &pTS->m_NumThreadsRunning, -1 );
+    // the decrement must be this thread's last access to the scheduler:
+    // StopThreads( true ) waits for the count and then the scheduler is freed
     SafeCallback( pTS->m_ProfilerCallbacks.threadStop, threadNum );
+    AtomicAdd( &pTS->m_NumThreadsRunning, -1 );
 
     return 0;
 }
